@@ -151,6 +151,8 @@ pub fn parse_arguments(to_parse: &str) -> Result<Vec<Unifiable>, String> {
                     has_period = true
                 }
                 else if ch == '\\' {  // escape character, must include next character
+                    // An argument with an escape is not a number (as in parse_term()).
+                    has_non_digit = true;
                     if i < length_chrs - 1 {
                         i += 1;
                         argument.push(chrs[i]);
@@ -412,11 +414,45 @@ pub fn parse_term(to_parse: &str) -> Result<Unifiable, String> {
     }
 
     // Check for escaped characters, eg: \,
-    if chrs.len() == 2 && chrs[0] == '\\' { s = &s[1..]; }
+    let unescaped: String;
+    if chrs.contains(&'\\') {
+        unescaped = unescape(&chrs);
+        s = &unescaped;
+    }
 
     return make_term(s, has_digit, has_non_digit, has_period);
 
 }  // parse_term
+
+// Removes escaping backslashes the way parse_arguments() does: outside
+// quotes, parentheses and brackets, a backslash is dropped and the
+// character after it is taken as it is. A backslash at the end stays.
+// Arguments:
+//   chrs - characters of the term
+// Return:
+//   term without the escaping backslashes
+fn unescape(chrs: &Vec<char>) -> String {
+    let mut out = String::new();
+    let mut round  = 0;
+    let mut square = 0;
+    let mut open_quote = false;
+    let mut i = 0;
+    while i < chrs.len() {
+        let ch = chrs[i];
+        if open_quote { if ch == '"' { open_quote = false; } }
+        else if ch == '[' { square += 1; }
+        else if ch == ']' { square -= 1; }
+        else if ch == '(' { round += 1; }
+        else if ch == ')' { round -= 1; }
+        else if round == 0 && square == 0 {
+            if ch == '"' { open_quote = true; }
+            else if ch == '\\' && i < chrs.len() - 1 { i += 1; }
+        }
+        out.push(chrs[i]);
+        i += 1;
+    }
+    return out;
+}  // unescape
 
 // Formats an error message for make_term().
 // Arguments:
